@@ -285,3 +285,11 @@ def on_havoc(ex, st, node, callee):
         add_seg(ex, node, ("unknown", callee[:80]))
         return True
     return False
+
+
+TRY_MODELS = [
+    (r"^<Result<.*> as Try>::branch$", m_try_branch),
+    (r"^<(std::option::)?Option<.*> as Try>::branch$", m_try_branch_option),
+    (r"^<(std::option::)?Option<.*> as FromResidual<(std::option::)?Option<Infallible>>>::from_residual$", m_from_residual_option),
+    (r"^<Result<.*> as FromResidual<Result<Infallible, .*>>>::from_residual$", m_from_residual),
+]
